@@ -1113,10 +1113,30 @@ class Interp:
             if st is not None and isinstance(st, Const) and st.v == -1:
                 return base
             win = any(isinstance(b, Idx) for b in (lo, hi))
-            return Vals(base.L, 'win' if win else base.base, base.placeholder, base.fresh)
+            if isinstance(lo, Idx) and isinstance(hi, Idx):
+                self.check_part_range(lo, hi, node)
+            r = Vals(base.L, 'win' if win else base.base, base.placeholder, base.fresh)
+            r.cut = (lo, hi)
+            return r
         if isinstance(base, (Arr, Rows, Mask, Sel)):
             return base
         return TOP
+
+    def check_part_range(self, lo, hi, node):
+        """[lo, hi) as the coordinate (or part) range of ONE part: lo = offs[i], hi = offs[i + 1] of the same offsets and the same i
+        (or start_view[i], stop_view[i])."""
+        a, b = lo.origin, hi.origin
+        if isinstance(a, tuple) and isinstance(b, tuple) and a[0] in ('off', 'offc') and b[0] == a[0] and a[1] == b[1] and a[2] == b[2] \
+                and isinstance(a[3], int) and isinstance(b[3], int) and lo.delta == 0 and hi.delta == 0 and a[2] != 'c' and a[2] is not None:
+            ra, rb = a[4], b[4]
+            if ra == rb:
+                if b[3] != a[3] + 1:
+                    self.err('fencepost', node, f'range [offsets[i{a[3]:+d}], offsets[i{b[3]:+d}]) is not the range of one part (expected [offsets[i], offsets[i + 1]))')
+            elif ra == 'start' and rb == 'stop':
+                if a[3] != b[3]:
+                    self.err('fencepost', node, f'start offsets taken at i{a[3]:+d} but stop offsets at i{b[3]:+d}: not the range of one part')
+            elif ra == 'stop' and rb == 'start':
+                self.err('fencepost', node, 'range runs from a stop offset to a start offset')
 
     def check_fencepost(self, base, lo, hi, node):
         """offs[lo:hi]: lo, hi are level-k indices. When hi derives from the *stop* of the parent part (offs_parent[i+1] or a stop view)
@@ -1167,6 +1187,10 @@ class Interp:
             r = RangeV(*a)
             if isinstance(a[1], Idx):
                 r.hi_slack = -a[1].delta if a[1].delta <= 0 else 0
+            if isinstance(a[0], Idx) and isinstance(a[1], Idx) and a[0].level == a[1].level:
+                lo0 = Idx(a[0].level, a[0].base, a[0].parity, a[0].origin, 0)
+                hi0 = Idx(a[1].level, a[1].base, a[1].parity, a[1].origin, 0)
+                self.check_part_range(lo0, hi0, node)
             return r
         if name == 'enumerate':
             return EnumV(a0)
